@@ -866,6 +866,14 @@ def _misc(vm, m, c, args):
         if isinstance(b, Struct) and b.ty == 'Box' and b.f and isinstance(b.f[0], Struct) and b.f[0].f and isinstance(b.f[0].f[0], Ref):
             src = b.f[0].f[0]; val = vm.read_at(m, src.cell, src.path)       # values are immutable: the copy may share structure
             return ret(m, Struct((Struct((Ref(m.alloc(val)),)),) + tuple(b.f[1:]), 'Box'))
+        if isinstance(b, Seq) and not any(isinstance(x, (Ref, SliceRef, Struct, Enum, Seq)) for x in b.items): return ret(m, b)   # a boxed slice of scalars modelled by its contents
+        return NotImplemented
+    mm = re.match(r'^<Option<(.*)> as Clone>::clone$', c)
+    if mm and isinstance(args[0], Ref):
+        o = vm.read_at(m, args[0].cell, args[0].path)
+        if isinstance(o, Enum) and o.name == 'None': return ret(m, o)
+        if isinstance(o, Enum) and o.name == 'Some':
+            return [(m1, k, SOME(v) if k == 'ret' else v) for (m1, k, v) in vm.call(m, '<%s as Clone>::clone' % mm.group(1), [Ref(args[0].cell, tuple(args[0].path) + (('f', 0),))])]
         return NotImplemented
     # String
     if re.match(r'^<String as From<&str>>::from$|^<str as ToOwned>::to_owned$|^<String as Clone>::clone$|^<&str as Into<String>>::into$|^<impl str>::(to_string|to_owned)$|^String::from_str$|^<(?:str|&str|String) as ToString>::to_string$', c): return ret(m, _d(vm, m, args[0]))
